@@ -52,8 +52,8 @@ RULE = ('full Cartesian products: (sym) every cutout shape in {3..9}^2 x every s
         'equality with the call on the clean ndarray with every excluded pixel flagged in mask= ; (quad) shapes x every interior peak pixel x 5x5 sub-pixel vertex lattice x 3 curvature sets '
         'x fit_boxsize x mask variant x (xpeak, ypeak, search_boxsize) variant; (quadamp) the exactly quadratic peak times every '
         'rung of the magnitude ladder x shapes x every interior peak pixel x vertex sub-lattice (quick: 3 of the 25 offsets '
-        '(-0.4,0.3), (0,0), (0.45,-0.2); thorough: all 25) x 3 curvature sets x fit_boxsize x {no mask, peak pixel masked over '
-        '1e6} x {whole-array maximum, xpeak/ypeak + search_boxsize 3}: the vertex must be returned at every magnitude; '
+        '(-0.4,0.3), (0,0), (0.45,-0.2); thorough: all 25) x 3 curvature sets x fit_boxsize x {no mask; thorough: + peak pixel '
+        'masked over 1e6} x {whole-array maximum, xpeak/ypeak + search_boxsize 3}: the vertex must be returned at every magnitude; '
         '(sym, ladder) variants zero-filled / masked garbage x both ends of the quick ladder (x2^-120, x2^120) for '
         'centroid_com and centroid_quadratic (thorough: the Gaussian fits too): same symmetry centre; '
         '(qsearch) centroid_quadratic on '
@@ -1282,8 +1282,8 @@ AMP_PEAKS = ('none', 'search3')
 
 def quad_amp_cases(tier):
     """(quadamp) exactly quadratic peaks x the magnitude ladder: ladder x shape x every interior peak pixel x vertex
-    sub-lattice (quick: 3 of the 25 offsets, thorough: all 25) x curvature set x fit_boxsize x mask {none, peak pixel
-    masked over 1e6} x {whole-array maximum, (xpeak, ypeak) + search_boxsize 3}"""
+    sub-lattice (quick: 3 of the 25 offsets, thorough: all 25) x curvature set x fit_boxsize x mask {none; thorough: +
+    peak pixel masked over 1e6} x {whole-array maximum, (xpeak, ypeak) + search_boxsize 3}"""
     qs = QSHAPES_THOROUGH if tier == 'thorough' else QSHAPES_QUICK
     fr = list(itertools.product(FRACS, repeat=2)) if tier == 'thorough' else AMP_FRACS
     for amp in ladder(tier):
@@ -1293,7 +1293,7 @@ def quad_amp_cases(tier):
                     for fx, fy in fr:
                         for curv in CURV:
                             for box in BOXES:
-                                for mvar in AMP_MASKS:
+                                for mvar in (AMP_MASKS if tier == 'thorough' else AMP_MASKS[:1]):
                                     for pvar in AMP_PEAKS:
                                         yield {'kind': 'quad', 'shape': [ny, nx], 'pix': [px, py], 'frac': [fx, fy],
                                                'curv': list(curv), 'box': list(box) if isinstance(box, tuple) else box,
@@ -1453,7 +1453,7 @@ def describe(tier, seed):
             'peak pixel': 'every interior pixel',
             'frac': [list(t) for t in (itertools.product(FRACS, repeat=2) if tier == 'thorough' else AMP_FRACS)],
             'curvatures (cxx, cyy, cxy)': [list(c) for c in CURV], 'fit_boxsize': [3, 5, [3, 5]],
-            'mask': list(AMP_MASKS), 'xpeak/ypeak': list(AMP_PEAKS), 'clause': 'quad-vertex (1e-9) at every magnitude'},
+            'mask': list(AMP_MASKS if tier == 'thorough' else AMP_MASKS[:1]), 'xpeak/ypeak': list(AMP_PEAKS), 'clause': 'quad-vertex (1e-9) at every magnitude'},
         'sym ladder': {'variants': list(SYM_LADDER_VARIANTS), 'factors': list(EXTREMES),
                        'functions': list(FUNC_NAMES) if tier == 'thorough' else ['com', 'quad']},
         'qsearch': {'shapes': SSHAPES_THOROUGH if tier == 'thorough' else SSHAPES_QUICK,
